@@ -252,7 +252,7 @@ DEFAULT_UNWINDSET = [
 ]
 
 
-def run_harness(meta, unwind, cap_s, mem_gb, workdir, extra_cbmc=(), unwindset=None):
+def run_harness(meta, unwind, cap_s, mem_gb, workdir, extra_cbmc=(), unwindset=None, trace=False):
     if unwindset is None:
         unwindset = DEFAULT_UNWINDSET
     """goto-cc/goto-instrument/cbmc exactly as kani-driver 0.68 runs them; returns a result dict."""
@@ -305,8 +305,11 @@ def run_harness(meta, unwind, cap_s, mem_gb, workdir, extra_cbmc=(), unwindset=N
             cbmc += ["--unwindset", ",".join(uwset)]
         res["unwindset"] = uwset
         cbmc += ["--sat-solver", "cadical", "--slice-formula"] + list(extra_cbmc) + [work, "--json-ui", "--verbosity", "8"]
+        if trace:
+            cbmc += ["--trace"]
         res["unwind"] = uw
-        outp = os.path.join(workdir, name + ".cbmc.json")
+        outp = os.path.join(workdir, name + (".trace.json" if trace else ".cbmc.json"))
+        res["json"] = outp
         rc, _, to = _run(cbmc, cap_s, mem_gb, outp)
         res["wall_s"] = round(time.time() - t0, 1)
         if to:
@@ -460,3 +463,91 @@ def run_all(metas, specs, workdir, jobs):
     for t in threads:
         t.join()
     return out
+
+
+# ---------------------------------------------------------------------------------------------
+# counterexample extraction from a CBMC trace (used instead of Kani's own concrete playback, which switches formula
+# slicing off and then exhausts memory on the larger harnesses)
+# ---------------------------------------------------------------------------------------------
+_SIZES = {"u8": 1, "i8": 1, "bool": 1, "u16": 2, "i16": 2, "u32": 4, "i32": 4, "char": 4, "f32": 4, "u64": 8, "i64": 8, "usize": 8,
+          "isize": 8, "f64": 8, "u128": 16, "i128": 16}
+
+
+def _type_size(t):
+    t = t.strip()
+    if t in _SIZES:
+        return _SIZES[t]
+    m = re.match(r"\[(.+); (\d+)\]$", t)
+    if m:
+        inner = _type_size(m.group(1))
+        return None if inner is None else inner * int(m.group(2))
+    return None
+
+
+def concrete_values_from_trace(json_path):
+    """Returns (list of byte lists, one per kani::any_raw_* call in execution order, description of the failed check) or (None, why).
+    Values that the slicer removed (they do not influence the failed check) are filled with zeros."""
+    try:
+        data = json.load(open(json_path))
+    except Exception as e:  # noqa
+        return None, "trace output unparsable: %r" % (e,)
+    results = None
+    for e in data:
+        if isinstance(e, dict) and "result" in e:
+            results = e["result"]
+    if not results:
+        return None, "no results in trace run"
+    chosen = None
+    for r in results:
+        cls = r["property"].rsplit(".", 2)[-2] if r["property"].count(".") >= 2 else ""
+        if r["status"] == "FAILURE" and cls not in ("cover", "reachability_check", "unwind") and r.get("trace"):
+            chosen = r
+            break
+    if chosen is None:
+        return None, "no failed check with a trace"
+    vals = []
+    stack = []  # open any_raw calls: dict(size, elem, bytes)
+    for st in chosen["trace"]:
+        t = st.get("stepType")
+        if t == "function-call":
+            name = st.get("function", {}).get("displayName", "")
+            m = re.match(r"kani::any_raw_internal::<(.+)>$", name)
+            m2 = re.match(r"kani::any_raw_array::<(.+), (\d+)>$", name)
+            if m:
+                size = _type_size(m.group(1))
+                if size is None:
+                    return None, "unknown type in kani::any: %s" % m.group(1)
+                stack.append(dict(size=size, elem=size, bytes=[0] * size))
+            elif m2:
+                es = _type_size(m2.group(1))
+                if es is None:
+                    return None, "unknown element type in kani::any: %s" % m2.group(1)
+                n = int(m2.group(2))
+                stack.append(dict(size=es * n, elem=es, bytes=[0] * (es * n)))
+            else:
+                stack.append(None)
+        elif t == "function-return":
+            if stack:
+                top = stack.pop()
+                if top is not None and top["size"] > 0:
+                    # kani's playback library reads an array as N separate values of the element type
+                    for k in range(0, top["size"], top["elem"]):
+                        vals.append(top["bytes"][k:k + top["elem"]])
+        elif t == "assignment" and stack and stack[-1] is not None:
+            top = stack[-1]
+            lhs = st.get("lhs", "")
+            v = st.get("value", {})
+            b = v.get("binary")
+            if b is None or not lhs.startswith("var_0"):
+                continue
+            m = re.match(r"var_0\[(\d+)\]$", lhs)
+            idx = int(m.group(1)) if m else (0 if lhs == "var_0" else None)
+            if idx is None:
+                continue
+            nbytes = max(1, len(b) // 8)
+            num = int(b, 2)
+            off = idx * top["elem"]
+            for k in range(min(nbytes, top["elem"])):
+                if off + k < len(top["bytes"]):
+                    top["bytes"][off + k] = (num >> (8 * k)) & 0xFF
+    return vals, chosen["description"]
